@@ -180,7 +180,10 @@ FILTERS = [None, "rt=humidity", "rt=temperature-c", "rt=temp*", "rt=temperature-
            "ct=4*", "href=/a", "href=/a*", "href=/s/*", "href=/", "rt=*", "rt=nothing", "noequals", "foo=bar", "rt=root", "href=/s/x", "href=/t//x", "href=/t/*"]
 
 
-def mk_listing(reach):
+FILTERS2 = ["rt=humidity", "rt=temp*", "if=sensor", "if=core*", "ct=0", "href=/a*", "href=/s/*", "rt=nested", "foo=bar", "noequals", "rt=*"]
+
+
+def mk_listing(reach, two=False):
     SimLoop, Message, resource, serve = _kit()
     from aiocoap.numbers.codes import GET, CONTENT
 
@@ -195,10 +198,13 @@ def mk_listing(reach):
     MASKS = [0b11111111, 0b00000000, 0b00010011, 0b11101100, 0b10010000, 0b10101011]
     REMOVED = [-1, 4, 0, 3, 7]
 
+    if two:
+        MASKS = [0b11111111, 0b00010011, 0b11101100]
+
     def h(mi: int, fi: int, ri: int) -> None:
-        assert 0 <= mi < len(MASKS) and 0 <= fi < len(FILTERS) and 0 <= ri < len(REMOVED)
+        assert 0 <= mi < len(MASKS) and 0 <= fi < (len(FILTERS2) if two else len(FILTERS)) and 0 <= ri < (len(FILTERS2) if two else len(REMOVED))
         mask = pick(MASKS, mi)
-        removed = pick(REMOVED, ri)
+        removed = -1 if two else pick(REMOVED, ri)
         with SimLoop() as loop:
             site = resource.Site()
             site.add_resource([".well-known", "core"], resource.WKCResource(site.get_resources_as_linkheader))
@@ -230,10 +236,10 @@ def mk_listing(reach):
                         expected["/" + "/".join(p)] = {k.rstrip("_"): v for k, v in attrs.items()}
                 if removed == i:
                     site.remove_resource(list(p))
-            flt = pick(FILTERS, fi)
+            flts = [pick(FILTERS2, fi), pick(FILTERS2, ri)] if two else [pick(FILTERS, fi)]
             req = Message(code=GET, uri_path=[".well-known", "core"])
-            if flt is not None:
-                req.opt.uri_query = [flt]
+            if flts != [None]:
+                req.opt.uri_query = flts
             resp = serve(loop, site, req)
             assert resp.code == CONTENT and int(resp.opt.content_format) == 40
             text = resp.payload.decode("utf8")
@@ -245,6 +251,9 @@ def mk_listing(reach):
                 hrefs.append(href)
             # reference: RFC 6690 4.1 filter on the registration list
             def matches(href, attrs):
+                return all(matches1(href, attrs, flt) for flt in flts)
+
+            def matches1(href, attrs, flt):
                 if flt is None or "=" not in flt:
                     return True
                 k, v = flt.split("=", 1)
@@ -276,4 +285,8 @@ def obligations(tier):
     obs.append(Obligation("wkc-listing-and-filters", mk_listing, 280 if q else 1500, functions=FUNCS,
                           symbolic={"registered subset": "index over 6 subsets of %d registrations (plain, hidden, nested site, root, empty component)" % len(LISTING),
                                     "filter": "index over %d queries" % len(FILTERS), "removed registration": "none / site / plain / hidden"}))
+    obs.append(Obligation("wkc-two-filters", lambda reach: mk_listing(reach, two=True), 280 if q else 1500, functions=FUNCS,
+                          symbolic={"registered subset": "index over 3 subsets of %d registrations" % len(LISTING),
+                                    "first filter, second filter": "indices over %d queries each (all ordered pairs, including equal ones)" % len(FILTERS2)},
+                          note="several query parameters in one request: every one of them has to match (conjunction); a parameter without '=' does not filter"))
     return obs
